@@ -11,9 +11,9 @@ import time
 import traceback
 
 VERIF = os.path.dirname(os.path.dirname(os.path.abspath(__file__)))
-EVIDENCE_DIR = os.path.join(VERIF, "evidence")
+EVIDENCE_DIR = os.environ.get("VERIF_EVIDENCE_DIR") or os.path.join(VERIF, "evidence")
 REPLAY_DIR = os.path.join(VERIF, "replays")
-FOUND_DIR = os.path.join(VERIF, "replays", "found")
+FOUND_DIR = os.environ.get("VERIF_FOUND_DIR") or os.path.join(VERIF, "replays", "found")
 FINDINGS_FILE = os.path.join(VERIF, "known_findings.json")
 NCPU = int(os.environ.get("VERIF_SHARDS", "16"))
 
